@@ -155,6 +155,8 @@ type Exec struct {
 	allLits       map[*ast.FuncLit]bool
 	usedAxioms    map[string]bool
 	intrinsics    map[string]bool
+	cloVerified   map[*ast.FuncLit]bool
+	reassigned    map[types.Object]bool
 }
 
 func newExec(ld *Loader, cs *Contracts, pkg *packages.Package) *Exec {
@@ -165,7 +167,7 @@ func newExec(ld *Loader, cs *Contracts, pkg *packages.Package) *Exec {
 		heapComps: map[string]*Sort{}, structSorts: map[string]*Sort{}, typeTags: map[string]int{}, maxPaths: 20000, assumptions: map[string]bool{},
 		maxSteps: 400000, assertHit: map[int]bool{}, skipHit: map[string]bool{}, loopHit: map[int]bool{}, cloHit: map[int]bool{},
 		freshSliceVars: map[*types.Var]bool{}, escaped: map[*ast.FuncLit]bool{}, uncontracted: map[string]bool{}, pureAxiomDone: map[string]bool{},
-		closureOfVar: map[*types.Var]*ast.FuncLit{}, allLits: map[*ast.FuncLit]bool{}, usedAxioms: map[string]bool{}, intrinsics: map[string]bool{},
+		closureOfVar: map[*types.Var]*ast.FuncLit{}, allLits: map[*ast.FuncLit]bool{}, usedAxioms: map[string]bool{}, intrinsics: map[string]bool{}, cloVerified: map[*ast.FuncLit]bool{}, reassigned: map[types.Object]bool{},
 	}
 }
 
@@ -296,7 +298,7 @@ func (ex *Exec) structSort(t types.Type, u *types.Struct) *Sort {
 		f := u.Field(i)
 		fsort := ex.sortOf(f.Type())
 		s.Fields = append(s.Fields, Field{f.Name(), fsort})
-		fs = append(fs, fmt.Sprintf("(%s_%s %s)", name, sanitize(f.Name()), fsort.Name))
+		fs = append(fs, fmt.Sprintf("(%s_%s %s)", name, fieldAcc(f, i), fsort.Name))
 	}
 	ex.declare(fmt.Sprintf("(declare-datatypes ((%s 0)) (((mk_%s %s))))", name, name, strings.Join(fs, " ")))
 	return s
@@ -437,11 +439,11 @@ func (ex *Exec) fieldPath(st *State, x Val, index []int) Val {
 			if st == nil {
 				elabFail("heap not available for field %s", f.Name())
 			}
-			comp := ex.compName(t, f.Name())
+			comp := ex.compName(t, fieldAcc(f, i))
 			cur = Val{T: app("select", ex.heapGet(st, comp, fs), cur.T), S: fs, GoT: f.Type()}
 		} else {
 			ss := ex.sortOf(t)
-			cur = Val{T: app(ss.Name+"_"+sanitize(f.Name()), cur.T), S: fs, GoT: f.Type()}
+			cur = Val{T: app(ss.Name+"_"+fieldAcc(f, i), cur.T), S: fs, GoT: f.Type()}
 		}
 	}
 	return cur
@@ -522,7 +524,7 @@ func (ex *Exec) load(st *State, p Val, elem types.Type) Val {
 		for i := 0; i < stt.NumFields(); i++ {
 			f := stt.Field(i)
 			fs := ex.sortOf(f.Type())
-			args = append(args, app("select", ex.heapGet(st, ex.compName(elem, f.Name()), fs), p.T))
+			args = append(args, app("select", ex.heapGet(st, ex.compName(elem, fieldAcc(f, i)), fs), p.T))
 		}
 		return Val{T: app("mk_"+ss.Name, args...), S: ss, GoT: elem}
 	}
@@ -537,9 +539,9 @@ func (ex *Exec) store(st *State, p Val, elem types.Type, v Val) {
 		for i := 0; i < stt.NumFields(); i++ {
 			f := stt.Field(i)
 			fs := ex.sortOf(f.Type())
-			comp := ex.compName(elem, f.Name())
+			comp := ex.compName(elem, fieldAcc(f, i))
 			h := ex.heapGet(st, comp, fs)
-			st.heap[comp] = app("store", h, p.T, app(ss.Name+"_"+sanitize(f.Name()), v.T))
+			st.heap[comp] = app("store", h, p.T, app(ss.Name+"_"+fieldAcc(f, i), v.T))
 		}
 		return
 	}
@@ -560,4 +562,12 @@ func nodeString(fset *token.FileSet, n ast.Node) string {
 	var b bytes.Buffer
 	_ = printer.Fprint(&b, fset, n)
 	return b.String()
+}
+
+// fieldAcc is the SMT accessor suffix of struct field number i (blank fields get unique names).
+func fieldAcc(f *types.Var, i int) string {
+	if f.Name() == "_" {
+		return fmt.Sprintf("_blank%d", i)
+	}
+	return sanitize(f.Name())
 }
